@@ -40,7 +40,7 @@ def cases(tier, seed):
              "strategy": ["nmpfit", "scipy"][i % 2], "subset": bool((i // 2) % 2), "start": ["truth", "perturbed"][(i // 4) % 2] if i >= 4 else ["truth", "perturbed"][i % 2],
              "perturb": [float(v) for v in rng.uniform(-0.02, 0.02, 6)], "seed": [seed, "fit", i], "cost": 10,
              # every fourth problem has bounds hugging the truth (+-3 %), so that the bounds handed to the minimiser matter
-             "tight_bounds": bool(i % 8 in (1, 4)),
+             "tight_bounds": bool(i % 8 in (1, 4)), "wl_from_data": bool(i % 3 == 1),
              # region-of-interest style detectors: anisotropic pixels and different x / y offsets (every second problem)
              "spacing_y_factor": float(rng.uniform(0.8, 1.25)) if i % 2 else 1.0,
              "offset": [float(rng.uniform(0.5, 3)), float(rng.uniform(4, 8))] if (i // 2) % 2 == 0 else [0.0, 0.0]}
@@ -85,7 +85,11 @@ def run_case(case):
     pri = {k: Uniform(bounds[k][0], bounds[k][1], guess=guess[k], name=k) for k in keys}
     s = Sphere(n=case["n"], r=pri["r"], center=[pri["x"], pri["y"], pri["z"]])
     theory = (MieLens(lens_angle=pri["lens_angle"]) if fit_la else MieLens(lens_angle=case["lens_angle"])) if lens else Mie()
-    model = AlphaModel(s, alpha=pri["alpha"], theory=theory, noise_sd=0.05, medium_index=nmed, illum_wavelen=wl, illum_polarization=pol)
+    # every third problem leaves the wavelength to the data's metadata (a model is then re-used on data taken at another wavelength)
+    wl_from_data = bool(case.get("wl_from_data"))
+    mk_model = lambda: AlphaModel(s, alpha=pri["alpha"], theory=theory, noise_sd=0.05, medium_index=nmed,
+                                  illum_wavelen=None if wl_from_data else wl, illum_polarization=pol)
+    model = mk_model()
     npx = int(0.6 * N * N) if case["subset"] else None
     if case["strategy"] == "nmpfit":
         strat = NmpfitStrategy(npixels=npx, seed=1234 if npx else None)
@@ -140,6 +144,20 @@ def run_case(case):
     flags["second_fit_identical"] = bool(all(res2.parameters[k] == got[k] for k in keys))
     if not flags["second_fit_identical"]:
         resid["second_fit_diff"] = fnum(max(abs(res2.parameters[k] - got[k]) / abs(got[k]) for k in keys))
+    # the same model object fitted to a second data set whose metadata differ (other wavelength): what the model takes
+    # from the data must come from THIS data set -- result identical to that of a freshly built model
+    if wl_from_data:
+        wl2 = wl * 0.62
+        data2 = calc_holo(det, Sphere(n=case["n"], r=truth["r"], center=(truth["x"], truth["y"], truth["z"])), nmed, wl2, pol, theory=th_true, scaling=truth["alpha"])
+        data2 = update_metadata(data2, noise_sd=0.05)
+        np.random.seed(99)
+        res_b = hp.fit(data2, model, strategy=strat)
+        np.random.seed(99)
+        res_f = hp.fit(data2, mk_model(), strategy=strat)
+        flags["reused_model_on_other_data_equals_fresh_model"] = bool(all(res_b.parameters[k] == res_f.parameters[k] for k in keys))
+        if case["start"] == "truth":
+            resid["fixed_point@second_dataset"] = fnum(max(abs(res_b.parameters[k] - truth[k]) / abs(truth[k]) for k in keys))
+        flags["model_untouched@second_dataset"] = bool(digest(model) == d_model)
     # save / load
     td = tempfile.mkdtemp(prefix="vf_c13_")
     try:
@@ -152,6 +170,13 @@ def run_case(case):
         resid["reload_hologram"] = relmax(np.sort(r2.hologram.values.ravel()), np.sort(res.hologram.values.ravel()))
         resid["reload_data"] = relmax(np.sort(r2.data.values.ravel()), np.sort(res.data.values.ravel()))
         flags["reload_max_lnprob"] = bool(abs(r2.max_lnprob - res.max_lnprob) <= 1e-9 * max(1.0, abs(res.max_lnprob)))
+        # the second result is saved BEFORE any of its derived quantities (hologram, max_lnprob) has been looked at,
+        # while the first one's already have been: what one result has cached must not be demanded of another
+        p2 = os.path.join(td, "result2.h5")
+        hp.save(p2, res2)
+        r3 = hp.load(p2)
+        flags["reload_second_result_parameters"] = bool(r3.parameters == res2.parameters)
+        resid["reload_second_result_hologram"] = relmax(np.sort(r3.hologram.values.ravel()), np.sort(res2.hologram.values.ravel()))
     finally:
         shutil.rmtree(td, ignore_errors=True)
     return {"resid": resid, "flags": flags, "err": fnum(err), "chi2": [c_guess, c_res], "got": {k: float(got[k]) for k in keys}, "truth": truth}
@@ -159,8 +184,8 @@ def run_case(case):
 
 # ------------------------------------------------------------------ oracle
 
-TOL = {"fixed_point": 1e-9, "recovery": 1e-6, "recovery_with_free_lens_angle": float("inf"), "misfit_ratio_minus_1": 1e-9, "hologram_is_forward": 1e-10, "hologram_vs_model_forward": 1e-10,
-       "max_lnprob": 1e-10, "reload_hologram": 1e-12, "reload_data": 0.0, "second_fit_diff": 0.0}
+TOL = {"fixed_point": 1e-9, "fixed_point@second_dataset": 1e-9, "recovery": 1e-6, "recovery_with_free_lens_angle": float("inf"), "misfit_ratio_minus_1": 1e-9, "hologram_is_forward": 1e-10, "hologram_vs_model_forward": 1e-10,
+       "max_lnprob": 1e-10, "reload_hologram": 1e-12, "reload_second_result_hologram": 1e-12, "reload_data": 0.0, "second_fit_diff": 0.0}
 
 
 def judge(case, obs):
